@@ -395,6 +395,23 @@ def run(ix, R):
         small = None
         for sel in ('return min(V_grids, key=lambda V_x: V_x.shape[0])', 'return min(V_grids, key=len)'):
             small = small or _find(f.node, head + [sel])[0]
+        for cmp_ in ('V_wn.shape[0] < V_cur.shape[0]', 'V_cur.shape[0] > V_wn.shape[0]', 'len(V_wn) < len(V_cur)',
+                     'len(V_cur) > len(V_wn)'):
+            small = small or _find(f.node, head + ['''
+for V_wn in V_grids:
+    ...
+    if %s:
+        V_cur = V_wn
+''' % cmp_, 'return V_cur'])[0]
+        # the two tests of the selection loop merged into one (`is None or shorter`), either way round
+        for cmp_ in ('V_cur.shape[0] < V_wn.shape[0]', 'V_wn.shape[0] > V_cur.shape[0]', 'len(V_cur) < len(V_wn)',
+                     'len(V_wn) > len(V_cur)'):
+            alt = alt or _find(f.node, head + ['''
+for V_wn in V_grids:
+    ...
+    if V_cur is None or %s:
+        V_cur = V_wn
+''' % cmp_, 'return V_cur'])[0]
         if small is not None:
             R.fail('4.native', 'DOM', site, stmt4, 'the smallest grid is selected', 'min(..., key=size) picks the grid with '
                    'the fewest points: molecules with finer grids are then interpolated down', f.loc())
